@@ -1,12 +1,5 @@
 ------------------------------ MODULE MC_QAlg ------------------------------
 (* Model instance of QAlg.tla.  The harness appends the literal constants (Depth, NSlots, Ops, EmitMode, ...) to a copy *)
 (* of MC_QAlg.cfg for every run: reading them from the environment (IOEnv) in every state serialises the workers.       *)
-EXTENDS QAlg
-Build == {"Mul", "Div", "Pow"}
-SeedsNone == {}
-SeedsMulDiv == {"Mul", "Div", "Pow"}
-OpsAll  == {"Mul", "Div", "FloorDiv", "Pow", "Add", "Sub", "Lt", "GetValue"}
-OpsSum  == {"Add", "Sub"}
-OpsProd == {"Mul", "Div", "FloorDiv", "Pow"}
-OpsFail == {"Add", "Sub", "Lt", "GetValue"}
+EXTENDS QAlg, MC_QAlgDefs
 =============================================================================
